@@ -327,6 +327,44 @@ func runC16(env *Env, rc *RunCtx) {
 		rc.Violate("names-changed", "expand", fmt.Sprintf("expand of %s: subject-id leaves differ from the written strings", short(fmt.Sprint(set))), w(nil), -1, nil)
 		return
 	}
+	// Half of the relationships are deleted again (by value): the names of the
+	// ones that stay - often the same strings, used in another role or another
+	// relationship - are returned as they were written.
+	if len(batch) >= 2 && rc.Mode != "faults" {
+		var del []Delta
+		gone := map[string]bool{}
+		for _, x := range batch {
+			if t.Bool(1, 2) && !gone[x.String()] {
+				gone[x.String()] = true
+				del = append(del, Delta{Insert: false, T: x})
+			}
+		}
+		if len(del) > 0 {
+			var dr Resp
+			if t.Bool(1, 2) {
+				dr = sys.Patch(del)
+			} else {
+				dr = sys.Transact(del)
+			}
+			if !dr.OK() {
+				rc.Violate("valid-rejected", "delete", fmt.Sprintf("deleting %d of the written relationships failed: %s", len(del), dr), w(nil), -1, nil)
+				return
+			}
+			var rest []Tuple
+			for _, x := range batch {
+				if !gone[x.String()] {
+					rest = append(rest, x)
+				}
+			}
+			_, got2, _ := sys.ListAll(Query{}, 0, t.Bool(1, 2))
+			rc.Rec.Execs++
+			rc.Count("probe_listing_after_partial_delete", 1)
+			if d := bagDiff(got2, rest); d != "" {
+				rc.Violate("names-changed", "list-after-delete", fmt.Sprintf("listing after deleting %d of %d relationships differs: %s", len(del), len(batch), d), w(nil), -1, nil)
+				return
+			}
+		}
+	}
 	rc.Rec.CaseHash = fmt.Sprintf("%016x", fnv64(fmt.Sprint(batch), 0))
 	rc.Rec.NonTrivial = len(distinct) >= 3
 	if len(distinct) > 100 {
